@@ -140,15 +140,26 @@ func (h *NFSProcedureHandler) handleSetattr(body io.Reader, reply *RPCReply, aut
 		node.mu.RUnlock()
 		return nfsErrorWithWcc(reply, NFSERR_IO), nil
 	}
-	attrs := &NFSAttrs{
-		Mode: node.attrs.Mode,
-		Uid:  node.attrs.Uid,
-		Gid:  node.attrs.Gid,
-	}
+	// Start from a full copy so that the node keeps its type, fileid, size and
+	// times; SETATTR changes only what the request sets.
+	attrsCopy := *node.attrs
+	attrs := &attrsCopy
 	node.mu.RUnlock()
 
 	if sattr.SetMode {
-		attrs.Mode = os.FileMode(sattr.Mode)
+		// mode3 carries permission, setuid, setgid and sticky bits; the file type
+		// is not settable and stays what it is.
+		perm := os.FileMode(sattr.Mode & 0777)
+		if sattr.Mode&04000 != 0 {
+			perm |= os.ModeSetuid
+		}
+		if sattr.Mode&02000 != 0 {
+			perm |= os.ModeSetgid
+		}
+		if sattr.Mode&01000 != 0 {
+			perm |= os.ModeSticky
+		}
+		attrs.Mode = attrs.Mode&os.ModeType | perm
 	}
 	if sattr.SetUID {
 		if authCtx.EffectiveUID == 0 {
